@@ -328,6 +328,12 @@ package martian
 //@   at call 0 of DumpResponse before set hDumped = true
 //@   at call 0 of DumpResponse before set hCloseAtDump = res.Close
 //@   at call 0 of Write before assert[shaping-measures-the-head-that-is-written; C18] hDumped ==> res.Close == hCloseAtDump
+// h502: the 502 handle synthesized for a failed round trip. It reaches the response modifier WITH its Warning header.
+//@   modifies h502
+//@   at entry 0 before set h502 = nil
+//@   at call 0 of NewResponse after set h502 = result
+//@   at call 0 of ModifyResponse before assert[a-synthesized-502-passes-through-the-response-modifier-with-its-warning; C03] res == h502 ==> lastWarnHeader == res.Header
+//@   at call 0 of Write before assert[a-response-the-origin-ends-by-closing-closes-the-client-connection-too; C03 C01] res.Close ==> closing != nil
 //@   modifies hWrote, hFlushed
 //@   at entry 0 before set hWrote = false
 //@   at entry 0 before set hFlushed = false
@@ -336,6 +342,7 @@ package martian
 //@   at return all before assert[a-written-response-is-flushed-before-handle-returns; C01] hWrote ==> hFlushed
 //@   at return all before assert[context-released] didLink ==> !has(ctxs, req)
 //@ ghost var hWrote bool
+//@ ghost var h502 *http.Response
 //@ ghost var hDumped bool
 //@ ghost var hCloseAtDump bool
 //@ ghost var hFlushed bool
